@@ -78,7 +78,7 @@ const c14SpawnMark = "created by github.com/nuts-foundation/nuts-node/network/da
 
 // c14MaxWait only bounds how long a case may hang before it is given up (reported as not exhaustive, never as
 // a failure); nothing is decided by it.
-const c14MaxWait = 180 * time.Second
+const c14MaxWait = 30 * time.Second
 
 func newC14Sim(t testing.TB) *c14Sim {
 	s := &c14Sim{t: t, running: -1, buf: make([]byte, 1<<20)}
@@ -1166,6 +1166,9 @@ func TestVerifC14(t *testing.T) {
 				return res
 			}
 			last = err
+			if r.Expired() {
+				break
+			}
 		}
 		r.NotExhaustive("some cases could not be run to quiescence (skipped after 3 attempts)")
 		r.Observation("case-skipped", map[string]any{"case": sc, "reason": last.Error()})
